@@ -12,6 +12,7 @@ import gzip
 import io
 import math
 import os
+import re
 import shutil
 import tempfile
 import xml.etree.ElementTree as ET
@@ -33,7 +34,7 @@ MANIFEST = dict(
          "real parser and compared shape by shape (order, kind, id, absolute geometry, paint, stroke width) with the "
          "source; second and third generation must agree with each other",
     note="differential: no reference semantics beyond XML well-formedness; geometry tolerance 4e-6 x (1 + scale) per "
-         "generation for the six-decimal matrices; use instances are compared as the shapes they instantiate",
+         "generation for the six-decimal matrices, times the magnification 1/sqrt|det| of the most shrinking written matrix; use instances are compared as the shapes they instantiate",
     design_ref="DESIGN.md section 3 C20")
 ASSUMPTIONS = ["the source's own shapes (elements()) are the reference: defects shared by reader and writer are C03's"]
 
@@ -107,6 +108,25 @@ def wellformed(out, text, what, tags):
         return False
 
 
+_MATRIX_TEXT = re.compile(r'matrix\(([^)]*)\)')
+
+
+def amplification(text):
+    """the written matrices carry six decimals (absolute error 5e-7 per entry); a written matrix that SHRINKS (the writer
+    undoing a magnifying viewport transform, e.g. 1/35 written as 0.028571) has that error magnified again by the viewport
+    transform when the text is re-read: the factor 1/sqrt|det| of the most shrinking written matrix, at least 1"""
+    amp = 1.0
+    for m in _MATRIX_TEXT.finditer(text):
+        try:
+            a, b, c, d = [float(v) for v in m.group(1).replace(",", " ").split()[:4]]
+        except ValueError:
+            continue
+        det = abs(a * d - b * c)
+        if det > 0:
+            amp = max(amp, 1.0 / math.sqrt(det))
+    return amp
+
+
 def chain(svg, out, x0, tags, what, reify=True, files=False):
     s0 = observe_shapes(svg, x0)
     try:
@@ -125,7 +145,8 @@ def chain(svg, out, x0, tags, what, reify=True, files=False):
                  exc=type(e).__name__, **tags)
         return
     out.outcome = (len(s0), len(s1))
-    if not compare_gen(out, s0, s1, "%s: first generation" % what, dict(gen=1, **tags)):
+    tolf = 4e-6 * amplification(t1)
+    if not compare_gen(out, s0, s1, "%s: first generation" % what, dict(gen=1, **tags), tolf=tolf):
         return
     try:
         t2 = x1.string_xml()
@@ -140,8 +161,8 @@ def chain(svg, out, x0, tags, what, reify=True, files=False):
         out.fail("%s: later generation raised %s" % (what, type(e).__name__), None, repr(e), kind="later-exception",
                  exc=type(e).__name__, **tags)
         return
-    compare_gen(out, s2, s3, "%s: third vs second generation" % what, dict(gen=3, **tags))
-    compare_gen(out, s1, s2, "%s: second vs first generation" % what, dict(gen=2, **tags))
+    compare_gen(out, s2, s3, "%s: third vs second generation" % what, dict(gen=3, **tags), tolf=4e-6 * amplification(t3))
+    compare_gen(out, s1, s2, "%s: second vs first generation" % what, dict(gen=2, **tags), tolf=4e-6 * amplification(t2))
     if files:
         d = tempfile.mkdtemp(prefix="verif-c20-")
         try:
@@ -155,7 +176,8 @@ def chain(svg, out, x0, tags, what, reify=True, files=False):
                     txt = raw.decode("utf-8", "replace")
                     if wellformed(out, txt, "%s: write_xml(%s)" % (what, ext), tags):
                         xf = svg.SVG.parse(io.StringIO(txt), reify=reify)
-                        compare_gen(out, s0, observe_shapes(svg, xf), "%s: write_xml(%s)" % (what, ext), dict(gen=ext, **tags))
+                        compare_gen(out, s0, observe_shapes(svg, xf), "%s: write_xml(%s)" % (what, ext), dict(gen=ext, **tags),
+                                    tolf=4e-6 * amplification(txt))
                 except Exception as e:  # noqa
                     out.fail("%s: write_xml(%s) raised %s" % (what, ext, type(e).__name__), None, repr(e), kind="write-exception",
                              exc=type(e).__name__, **tags)
